@@ -66,12 +66,12 @@ def run(v, tier):
     tr_idx = set(rng.sample(small, min(ntrace, len(small))))
     nst = 250 if quick else 1500
     st_idx = set(rng.sample(range(len(fs)), min(nst, len(fs))))
-    reqs = [{'cmd': 'taut', 'pat': f, 'stages': i in st_idx, 'trace': i in tr_idx} for i, f in enumerate(fs)]
+    reqs = [{'cmd': 'taut', 'pat': f, 'stages': i in st_idx, 'trace': i in tr_idx, 'budget': 60 if quick else 150} for i, f in enumerate(fs)]
     res = lem.run_applications(reqs)
     cases, traces = [], []
     exhausted = 0
     for q, r in zip(reqs, res):
-        if 'RecursionError' in r['out'] or 'RecursionError' in (r.get('stage_error') or ''):
+        if 'RecursionError' in r['out'] or 'RecursionError' in (r.get('stage_error') or '') or r['out'].startswith('resource:'):
             exhausted += 1        # interpreter resource limit (deeply nested notation in ==), not a verdict of the procedure
             continue
         cases.append({'fam': 'prove', 'pat': q['pat'], 'out': 'ok' if r['out'] == 'ok' else 'raise', 'exc': r['out'], 'verdict': r['verdict'], 'conc': r['conc']})
@@ -130,7 +130,7 @@ def run(v, tier):
         v.fail(f"loop-{f[3]}:{lp['clauses']}", f"saturation loop on {lp['clauses']}: the implementation's {f[2]}-th resolvable() call / verdict is not what the Resolution state machine does (clause {f[3]})",
                {'family': 'taut', 'case': lp})
     v.cov['formulas'] = len(fs)
-    v.cov['formulas_skipped_python_recursion_limit'] = exhausted
+    v.cov['formulas_skipped_python_recursion_limit'] = exhausted      # also: per-request CPU-time (60 s / 150 s) and address-space (6 GB) budgets
     v.cov['clause_lists'] = len(cls)
     v.sample({'pat': cases[5]['pat'], 'verdict': cases[5].get('verdict')})
     res, _ = funcs.run_blocks(v, 'C09', 'Trace_Taut', 'c09-trace', cases, '', bs=100)
